@@ -15,7 +15,7 @@ RULE = ("frames: the empty frame, every 1-row frame over the full row alphabet (
         "over a 10-row covering sub-alphabet, each with id labels in a non-monotone order; three representations: "
         "encoded (int ids + symbol table), decoded via s_name/s_cat columns, fully decoded string columns; "
         "filters: Iteration, IterationIndex, FirstIteration, Rank, TimeRange (all (a,b) in G_3), Name (5 patterns), "
-        "GPUKernel, CPUOperator, MemCopyEvent, Composite; laws: output = selected rows (labels, order, cells), input "
+        "GPUKernel, CPUOperator (also with a symbol table that knows only one of the two device-level sync names), MemCopyEvent, Composite; laws: output = selected rows (labels, order, cells), input "
         "unchanged, composite = sequential, row-local members commute = intersection, idempotence. "
         "non-trivial = the filter keeps some rows and drops some rows")
 ASSUMPTIONS = [
@@ -131,6 +131,20 @@ def symtab():
     return _ST
 
 
+_ST3 = None
+
+
+def symtab3():
+    """the trace set holds only one of the two device-level sync kinds: no 'Context Sync' symbol at all"""
+    global _ST3
+    if _ST3 is None:
+        from hta.common.trace_symbol_table import TraceSymbolTable
+
+        _ST3 = TraceSymbolTable()
+        _ST3.add_symbols([x for x in symtab().get_sym_table() if x != "Context Sync"])
+    return _ST3
+
+
 _ST2 = None
 
 
@@ -231,6 +245,18 @@ def check(world) -> Dict[str, Any]:
     execs = 0
     nontrivial = False
     outcome = []
+    if world["comp"] == 0:
+        # device-side predicate with a symbol table that knows only one of the two sync-record names
+        st3 = symtab3()
+        for spec in (["GPU"], ["CPU"]):
+            df = make_frame(rows, "enc", st3)
+            before = df.copy(deep=True)
+            out = apply(spec, df, st3)
+            execs += 1
+            keep = [i for i, r in enumerate(rows) if pred_for(spec, rows, "enc")(r)]
+            err = same_rows(out, before, keep)
+            if err:
+                viol.append((f"{err}/{spec[0]}/enc/one-sync-kind-only", dict(spec=spec, rows=rows, kept_labels=list(out.index), expected_pos=keep)))
     for mode in ("enc", "sname", "str"):
         st = symtab() if mode == "enc" else None
         if world["comp"] == 0:
